@@ -3,10 +3,12 @@ package checks
 import (
 	"fmt"
 	"os"
+	"strings"
 	"time"
 	_ "time/tzdata"
 
 	"verif/internal/eng"
+	"verif/internal/ref"
 )
 
 // DateCase: date(y,m,d) (+ optional addDate shift) in the worker's zone.
@@ -54,6 +56,7 @@ func init() {
 	c19Now = eng.NewKind(c, "clock", func(SrcCase) *eng.Fail { return judgeClock() })
 	c19Instant = eng.NewKind(c, "instant", judgeInstant)
 	c19Reloc = eng.NewKind(c, "relocated", judgeReloc)
+	c19Lit = eng.NewKind(c, "literal-arguments", judgeLitDate)
 }
 
 func floorDiv(a, b int64) int64 {
@@ -430,6 +433,44 @@ func judgeInstant(c InstantCase) *eng.Fail {
 	return nil
 }
 
+// LitDateCase: date(y, m, d) with the arguments written as literals in the formula text (zero-padded,
+// with separators, with exponents): a literal is the decimal number written, whatever it looks like.
+type LitDateCase struct {
+	Zone    string `json:"zone"`
+	Y, M, D string
+}
+
+var c19Lit *eng.Kind[LitDateCase]
+
+func judgeLitDate(c LitDateCase) *eng.Fail {
+	loc, name, err := workerZone()
+	if err != nil {
+		return eng.F("harness/zone", "zone: %v", err)
+	}
+	if c.Zone != "" && c.Zone != name {
+		return eng.F("harness/zone-mismatch", "this case was recorded under TZ=%s", c.Zone)
+	}
+	val := func(s string) int64 {
+		d, _ := ref.ParseDec(strings.Replace(s, "_", "", -1))
+		return ratTrunc(d.Rat()).Int64()
+	}
+	y, m, d := val(c.Y), val(c.M), val(c.D)
+	local := normDays(y, m, d) * 86400
+	if !localExists(loc, local) {
+		return nil
+	}
+	src := "$t = date(" + c.Y + ", " + c.M + ", " + c.D + "), [year($t), month($t), day($t), hour($t), minute($t), second($t), weekDay($t), millSecond($t)]"
+	o, perr := evalWith(src, map[string]interface{}{})
+	if perr != nil || o.panicked || o.err != nil {
+		return eng.F("C19/eval", "%s: %v %v %s", src, perr, o.err, o.panicMsg)
+	}
+	f, ok := intsOf(o.val, 8)
+	if !ok {
+		return eng.F("C19/eval", "%s: result %s", src, show(o.val))
+	}
+	return checkFields(loc, fmt.Sprintf("date(%s, %s, %s) in %s", c.Y, c.M, c.D, name), f, local)
+}
+
 // RelocCase: the process installs its own local zone (time.Local reassigned) and then builds dates.
 type RelocCase struct {
 	OffMin  int `json:"off_min"`
@@ -654,6 +695,23 @@ func runC19(w *eng.W) {
 			c := InstantCase{Zone: zone, Unix: u, Via: via}
 			w.Sample("instant", c)
 			c19Instant.Do(w, c)
+		}
+	}
+	// arguments written as literals in unusual but legal spellings
+	for _, y := range []string{"2024", "02024", "002024", "2_024", "2024.0", "2.024e3", "20240e-1", "01970", "0100"} {
+		if !mine() {
+			continue
+		}
+		for _, m := range []string{"1", "01", "010", "012", "0010", "1_0", "1e1", "08", "09", "007"} {
+			for _, d := range []string{"1", "015", "031", "0017", "08", "2_8", "0.5e1", "010"} {
+				w.State(1)
+				w.Trans(8)
+				w.Trace(1)
+				w.Note("leg:literal-arguments", 1)
+				c := LitDateCase{Zone: zone, Y: y, M: m, D: d}
+				w.Sample("literal-arguments", c)
+				c19Lit.Do(w, c)
+			}
 		}
 	}
 	// the process installs its own local zone after start-up
